@@ -27,6 +27,7 @@ sys.path.insert(0, str(VERIF / "harness" / "translators"))
 import tr_datatype  # noqa: E402
 import c01  # noqa: E402
 import c01_gen as G  # noqa: E402
+import c01_live as LV  # noqa: E402
 import c01_regimes as RG  # noqa: E402
 import c01_routes as RT  # noqa: E402
 
@@ -577,6 +578,22 @@ def run(ck: Check):
                 raise
             except Exception as e:  # noqa: BLE001
                 ck.mismatch("several-live-instances relation could not be evaluated", {"error": repr(e)[:300]})
+        # (1d) SHARED SUB-OBJECTS: a likelihood built on sub-objects it SHARES by reference with other live likelihoods (one Taxa /
+        #      Alignment / SitePattern / substitution / site model; JSON references or Python objects; other trees over the same taxa,
+        #      other options per consumer) must give the value of the same specification built from its own copies (= the marginal of
+        #      its own tree and data), before and after an update of a shared parameter
+        shared_failures = []
+        for g in range(30 if thorough else 8):
+            try:
+                plan = LV.gen_shared(rng)
+                recs = LV.run_shared(plan)
+                ck.case(key=("shared", g, plan["via"], plan["consumers"][0]["newick"]), bucket=f"shared-sub-objects/{plan['via']}")
+                if any(LV.failing(r) for r in recs):
+                    shared_failures.append((plan, recs))
+            except InfraError:
+                raise
+            except Exception as e:  # noqa: BLE001
+                ck.mismatch("shared-sub-object relation could not be evaluated", {"error": repr(e)[:300]})
         # (2) the tree-model option use_postorder_indices only renumbers the leaves: taxa order must still not matter,
         #     and the value must be that of the same specification without the option
         for rooting in ("unrooted", "time", "unrooted", "time") if thorough else ("unrooted", "time"):
@@ -677,6 +694,16 @@ def run(ck: Check):
                      + f" but the marginal of the data matched BY NAME is {f['oracle']} ({len(fs)} failing cases)",
                      {"mutation": {"case": f["case"], "how": how}, "detail": {k: v for k, v in f.items() if k != "case"},
                       "replay_cmd": "./check C02 --replay <this file>"})
+    if shared_failures:
+        shared_failures.sort(key=lambda f: (not any(LV.failing(r) and r["instance"] >= 0 for r in f[1]), len(f[0]["consumers"]), len(json.dumps(f[0]))))
+        plan, recs = shared_failures[0]
+        bad = next((r for r in recs if LV.failing(r) and r["instance"] >= 0), None) or next(r for r in recs if LV.failing(r))
+        ck.violation("TreeLikelihoodModel:shared-sub-objects",
+                     f"{len(plan['consumers'])} likelihoods sharing one Taxa / Alignment / SitePattern / substitution / site model ({plan['via']}): "
+                     + (f"consumer {bad['instance']} ({bad.get('kind')}) returns {bad['impl']} but the same specification on its own sub-objects gives {bad['oracle']}"
+                        if bad["instance"] >= 0 else "the tip list handed out by the shared SitePattern was altered by a consumer")
+                     + f" ({len(shared_failures)} failing plans)",
+                     {"shared": plan, "records": recs, "replay_cmd": "./check C02 --replay <this file>"})
     if alongside_failures:
         f = alongside_failures[0]
         ck.violation("TreeLikelihoodModel:several-live-instances",
@@ -703,7 +730,7 @@ def run(ck: Check):
             f"({len(fails)} failing pairs, relations {rels}; smallest has {len(f['a']['taxa'])} taxa)",
             {"pair": f, "broken_obligations": broken, "mismatches": ck.mismatches[:3], "replay_cmd": "./check C02 --replay <this file>"},
         )
-    elif not opt and not regime_failures and not mutation_failures and not alongside_failures and (not ok or ck.mismatches):
+    elif not opt and not regime_failures and not mutation_failures and not alongside_failures and not shared_failures and (not ok or ck.mismatches):
         ck.violation(
             "C02:unproved",
             "C02 theorems or the model/implementation correspondence no longer check "
@@ -716,6 +743,12 @@ def run(ck: Check):
 def replay(path: str) -> int:
     c01.setup_torch()
     obj = json.loads(Path(path).read_text())
+    if obj.get("shared"):
+        recs = LV.run_shared(obj["shared"])
+        bad = any(LV.failing(r) for r in recs)
+        for r in recs:
+            print(f"consumer {r['instance']} {r.get('kind', '')}: shared = {r['impl']!r}; own sub-objects / marginal = {r['oracle']!r}; {'VIOLATES' if LV.failing(r) else 'ok'}")
+        return 1 if bad else 0
     if obj.get("alongside"):
         f = obj["alongside"]
         alone = [c01.impl_value(G.build_model(c)) for c in f["cases"]]
